@@ -174,9 +174,80 @@ func (a Atom) matches(p Pred, truth bool) bool {
 	}
 	if strings.Contains(p.A, "~") || strings.Contains(p.B, "~") {
 		q := Pred{p.Kind, strings.ReplaceAll(p.A, "~", ""), strings.ReplaceAll(p.B, "~", "")}
-		return a.matches1(q, truth)
+		if a.matches1(q, truth) {
+			return true
+		}
+	}
+	// a record handed back by a lookup helper that returns the zero value on its failure paths:
+	// phi(nil|X) stands for X wherever the record is used after the helper's success was tested
+	if strings.Contains(p.A, "phi(") || strings.Contains(p.B, "phi(") {
+		qa, qb := dropNilPhi(strings.ReplaceAll(p.A, "~", "")), dropNilPhi(strings.ReplaceAll(p.B, "~", ""))
+		if qa != p.A || qb != p.B {
+			return a.matches1(Pred{p.Kind, qa, qb}, truth)
+		}
 	}
 	return false
+}
+
+// dropNilPhi rewrites every phi(...) whose alternatives are nil / zero values except one to that one.
+func dropNilPhi(s string) string {
+	for iter := 0; iter < 30; iter++ {
+		changed := false
+		from := 0
+		for {
+			i := strings.Index(s[from:], "phi(")
+			if i < 0 {
+				break
+			}
+			i += from
+			depth, j := 0, i+3
+			for ; j < len(s); j++ {
+				if s[j] == '(' || s[j] == '[' || s[j] == '{' {
+					depth++
+				} else if s[j] == ')' || s[j] == ']' || s[j] == '}' {
+					depth--
+					if depth == 0 {
+						break
+					}
+				}
+			}
+			if j >= len(s) {
+				return s
+			}
+			body := s[i+4 : j]
+			var parts []string
+			d2, st := 0, 0
+			for q := 0; q <= len(body); q++ {
+				if q == len(body) || (body[q] == '|' && d2 == 0) {
+					parts = append(parts, body[st:q])
+					st = q + 1
+					continue
+				}
+				if body[q] == '(' || body[q] == '[' || body[q] == '{' {
+					d2++
+				} else if body[q] == ')' || body[q] == ']' || body[q] == '}' {
+					d2--
+				}
+			}
+			var keep []string
+			for _, pt := range parts {
+				if pt == "nil" || strings.HasPrefix(pt, "zero:") {
+					continue
+				}
+				keep = append(keep, pt)
+			}
+			if len(keep) == 1 && len(parts) > 1 {
+				s = s[:i] + keep[0] + s[j+1:]
+				changed = true
+				break
+			}
+			from = i + 4
+		}
+		if !changed {
+			return s
+		}
+	}
+	return s
 }
 
 func (a Atom) matches1(p Pred, truth bool) bool {
@@ -557,6 +628,13 @@ func (c *Checker) helperImplies(call *ssa.Call, isErr bool, want bool, atoms []A
 						n++
 						continue
 					}
+					// ... or the error of a further helper:  return k.other(...)
+					if cl, isCall := res.(*ssa.Call); isCall && cl.Type().String() == "error" {
+						if hc.helperImplies(cl, true, true, atoms) {
+							n++
+							continue
+						}
+					}
 				}
 			} else {
 				if isNil {
@@ -739,6 +817,156 @@ func (c *Checker) resultImplies(call *ssa.Call, idx int, wantEmpty bool, atoms [
 		}
 	}
 	return n > 0
+}
+
+// siteAlt: one way a helper can have produced the outcome a branch observes (one of its return sites): whether
+// every path to that site establishes an atom, and the equalities with constants that hold whenever it is reached.
+type siteAlt struct {
+	cut bool
+	eq  map[string]string
+	ne  map[string][]string
+}
+
+// mustFacts: equalities / disequalities of terms with constants that hold whenever block b of the checked function is
+// reached, read off the chain of single-predecessor branch edges above it (terms in the outermost caller's vocabulary).
+func (c *Checker) mustFacts(b *ssa.BasicBlock) (map[string]string, map[string][]string) {
+	eq, ne := map[string]string{}, map[string][]string{}
+	for x := b; x != nil && len(x.Preds) == 1; x = x.Preds[0] {
+		d := x.Preds[0]
+		iff := cfgx.IfOf(d)
+		if iff == nil || len(d.Succs) != 2 || d.Succs[0] == d.Succs[1] {
+			continue
+		}
+		onTrue := d.Succs[0] == x
+		p, ppol, ok := c.pred(iff.Cond)
+		if !ok || p.Kind != "eq" {
+			continue
+		}
+		t, k := p.A, p.B
+		if isConstTerm(t) && !isConstTerm(k) {
+			t, k = k, t
+		}
+		if !isConstTerm(k) || isConstTerm(t) || strings.Contains(t, "#callee") || strings.Contains(t, "~") || strings.Contains(t, "elem(") || strings.Contains(t, "phi(") || strings.Contains(t, "cyc:") {
+			continue
+		}
+		if onTrue == ppol {
+			if _, dup := eq[t]; !dup {
+				eq[t] = k
+			}
+		} else {
+			ne[t] = append(ne[t], k)
+		}
+	}
+	return eq, ne
+}
+
+// helperAlts: the return sites through which the helper can have produced the observed outcome, each with what it
+// establishes. nil when the helper cannot be summarised.
+func (c *Checker) helperAlts(call *ssa.Call, isErr bool, want bool, atoms []Atom) []siteAlt {
+	if c.Depth >= MaxHelperDepth {
+		return nil
+	}
+	_, callees := term.CalleeName(c.P, &call.Call)
+	if len(callees) != 1 || len(callees[0].Blocks) == 0 || call.Call.IsInvoke() {
+		return nil
+	}
+	h := callees[0]
+	bidx := 0
+	if !isErr {
+		if tup, ok := call.Type().(*types.Tuple); ok && tup.Len() > 1 {
+			bidx = c.boolIdx
+			if bidx >= tup.Len() || !isBoolType(tup.At(bidx).Type()) {
+				return nil
+			}
+		}
+	}
+	subst := make([]string, len(h.Params))
+	for i, a := range call.Call.Args {
+		if i < len(subst) {
+			subst[i] = c.T(a)
+		}
+	}
+	hc := &Checker{P: c.P, Fn: h, Res: term.NewResolver(c.P, c.Res.Mods, h), Subst: subst, Depth: c.Depth + 1, ArgVals: call.Call.Args, Parent: c}
+	var out []siteAlt
+	for _, b := range h.Blocks {
+		ret, ok := b.Instrs[len(b.Instrs)-1].(*ssa.Return)
+		if !ok || len(ret.Results) == 0 {
+			continue
+		}
+		res := ret.Results[len(ret.Results)-1]
+		if !isErr {
+			if bidx >= len(ret.Results) {
+				return nil
+			}
+			res = ret.Results[bidx]
+		}
+		k, isC := res.(*ssa.Const)
+		if isErr {
+			isNil := isC && k.Value == nil
+			if want && !isNil && (isC || DefinitelyNonNil(res, 0)) {
+				continue
+			}
+			if !want && isNil {
+				continue
+			}
+		} else {
+			if !isC || k.Value == nil || k.Value.Kind() != constant.Bool {
+				return nil // a computed boolean: no per-site split
+			}
+			if constant.BoolVal(k.Value) != want {
+				continue
+			}
+		}
+		est, _ := hc.MustPass(b, atoms)
+		if !est && isErr && want {
+			if cl, isCall := res.(*ssa.Call); isCall && cl.Type().String() == "error" {
+				est = hc.helperImplies(cl, true, true, atoms)
+			}
+		}
+		eq, ne := hc.mustFacts(b)
+		out = append(out, siteAlt{cut: est, eq: eq, ne: ne})
+	}
+	return out
+}
+
+// altEdges: for branch edges decided by a helper that are not established outright, the alternatives (return sites)
+// with their facts — the search forks over them, so that a later test in the caller can rule an alternative out.
+func (c *Checker) altEdges(atoms []Atom, cut map[cfgx.Edge]bool) map[cfgx.Edge][]siteAlt {
+	out := map[cfgx.Edge][]siteAlt{}
+	if len(atoms) == 0 {
+		return out
+	}
+	for _, b := range c.Fn.Blocks {
+		iff := cfgx.IfOf(b)
+		if iff == nil || len(b.Succs) != 2 {
+			continue
+		}
+		call, isErr, hpol := c.helperCall(iff.Cond)
+		if call == nil {
+			continue
+		}
+		for si := 0; si < 2; si++ {
+			e := cfgx.Edge{From: b, To: b.Succs[si]}
+			if cut[e] {
+				continue
+			}
+			want := hpol
+			if si == 1 {
+				want = !hpol
+			}
+			alts := c.helperAlts(call, isErr, want, atoms)
+			useful := false
+			for _, a := range alts {
+				if a.cut || len(a.eq) > 0 || len(a.ne) > 0 {
+					useful = true
+				}
+			}
+			if useful && len(alts) > 1 {
+				out[e] = alts
+			}
+		}
+	}
+	return out
 }
 
 // directCut: edges on which one of the atoms holds by the branch condition itself.
@@ -1190,6 +1418,10 @@ func (c *Checker) searchMode(target *ssa.BasicBlock, atoms []Atom, avoid bool) (
 			return false, nil, false // nothing to avoid: the rule would pass vacuously
 		}
 	}
+	var alts map[cfgx.Edge][]siteAlt
+	if !avoid && c.through == nil {
+		alts = c.altEdges(atoms, cut)
+	}
 	tr := c.tracked()
 	order := map[ssa.Value]int{}
 	for _, b := range c.Fn.Blocks {
@@ -1409,6 +1641,50 @@ func (c *Checker) searchMode(target *ssa.BasicBlock, atoms []Atom, avoid bool) (
 			}
 			if narm {
 				bk += "^"
+			}
+			if as := alts[e]; len(as) > 0 {
+				// the helper can have returned through several sites: follow each one that does not establish the
+				// atom, with the facts of that site (a contradiction with what the path already knows, or learns
+				// later, makes it infeasible)
+				for _, a := range as {
+					if a.cut {
+						continue
+					}
+					aeq, ane := copyMap(neq), copyMap(nne)
+					feasible := true
+					for t, k := range a.eq {
+						if cur, ok := aeq[t]; ok && cur != k {
+							feasible = false
+						}
+						if strings.Contains(ane[t], "|"+k+"|") {
+							feasible = false
+						}
+						aeq[t] = k
+					}
+					for t, ks := range a.ne {
+						for _, k := range ks {
+							if cur, ok := aeq[t]; ok && cur == k {
+								feasible = false
+							}
+							if ane[t] == "" {
+								ane[t] = "|"
+							}
+							if !strings.Contains(ane[t], "|"+k+"|") {
+								ane[t] += k + "|"
+							}
+						}
+					}
+					if !feasible {
+						continue
+					}
+					ps := pstate{s, nv.key(order) + "#" + factKey(aeq, ane) + bk}
+					if seen[ps] {
+						continue
+					}
+					seen[ps] = true
+					q = append(q, &node{b: s, val: nv, eqc: aeq, nec: ane, prev: n, bad: nbad, arm: narm})
+				}
+				continue
 			}
 			ps := pstate{s, nv.key(order) + "#" + factKey(neq, nne) + bk}
 			if seen[ps] {
